@@ -195,6 +195,35 @@ impl std::io::Write for Choppy {
         self.calls += 1;
         Ok(k)
     }
+    /// A gathered write is one request too: the sink accepts a solver-chosen, non-empty prefix of the *concatenation* of the buffers
+    /// (what a line-buffered stdout or a pipe does), so a caller that inspects the count only against the first buffer is exposed.
+    /// The pinned serializer never issues gathered writes; this costs nothing until some code does.
+    fn write_vectored(&mut self, bufs: &[std::io::IoSlice<'_>]) -> std::io::Result<usize> {
+        let mut total = 0usize;
+        let mut b = 0;
+        while b < bufs.len() { total += bufs[b].len(); b += 1; }
+        if total == 0 {
+            return Ok(0);
+        }
+        let k = kani::any::<u8>() as usize;
+        kani::assume(k >= 1 && k <= total);
+        if k < total { self.short = true; }
+        let mut left = k;
+        let mut b = 0;
+        while b < bufs.len() && left > 0 {
+            let take = if bufs[b].len() < left { bufs[b].len() } else { left };
+            let mut i = 0;
+            while i < take {
+                self.data[self.n + i] = bufs[b][i];
+                i += 1;
+            }
+            self.n += take;
+            left -= take;
+            b += 1;
+        }
+        self.calls += 1;
+        Ok(k)
+    }
     fn flush(&mut self) -> std::io::Result<()> { Ok(()) }
 }
 
